@@ -1327,9 +1327,16 @@ class ServiceAnnouncer:
         """
         stops announcing previously started service
 
-        :param instance: service instance to be stopped
+        :param instance: service instance to be stopped. The
+            :class:`someip.config.Service` it announces is accepted as well
         :raises ValueError: if the service was not announcing
         """
+        if isinstance(instance, someip.config.Service):
+            # e.g. SimpleService.stop_announce only knows the service it announced
+            for candidate in self.announcing_services:
+                if candidate.service == instance:
+                    instance = candidate
+                    break
         self.announcing_services.remove(instance)
         if send_stop and self.started:
             instance.stop()
